@@ -200,3 +200,12 @@ prop('C08',
      nontrivial=lambda u: u.get('probe') == '1',
      rule='after every generated history (accepted and refused requests, forgeries, extension lines, up to 100 signature lines, first checkpoint of size 0) an honest probe is sent for each log: the log-signed checkpoint with just the log line, size >= stored size (explicit trees to 20, virtual trees growing by up to 2^40), old size = stored size, the RFC 6962 proof from the harness own implementation; VerifyConsistency compared with the model on all (m, n) with n <= 40 (300 thorough) and on sampled sizes to 2^63; non-trivial = probe records',
      assumptions=['F2 (stored size 0) is a known finding pinned by the test suite'])
+
+prop('C13',
+     modules=['WitnessVerif.Props.C13'],
+     scenarios=lambda tier: [sc('feeder')],
+     diverge={'FD': None},
+     nontrivial_line=lambda k, line: k == 'FD',
+     rule='feeder.FeedOnce against a scripted witness (recording stub, and the real witness behind the real witnessAdapter) for all (witness size, log size) in -1..N x 0..N (N=6 quick, 12 thorough), honest and forked log, all patterns of up to 2 (quick) / 4 (thorough) transient failures over get-latest / fetch-proof / update, unverifiable checkpoints (other key, other origin), witness ahead, context end; the sequence of calls (arguments, order) and the result compared with the model given the answers actually received; monitors check each Update against the latest checkpoint reported in the same attempt',
+     assumptions=['backoff timing (cenkalti/backoff) is real time, not modelled: the model is a retry loop over the attempts that happened'],
+     exhaustive=True)
